@@ -1,8 +1,9 @@
 (** The event-loop transition system of the blocking pops (C13) and what the property
     statement prescribes about it.  Definitions only; the theorems are in Props/C13.v, their
-    proofs in Proofs/BlockingFacts.v.  Model: Model/Blocking.v beside Model/Server.v. *)
+    proofs in Proofs/BlockingFacts.v, BlockingFifo.v, BlockingCons.v, BlockingStrand.v.  Model: Model/Blocking.v beside Model/Server.v. *)
 From Ferrous Require Import Base.Bytes Generated Model.Resp Model.Types Model.Strings Model.Lists
   Model.Server Model.Blocking.
+From Coq Require Import Sorted.
 Open Scope Z_scope.
 
 Definition sys := (server * blocking)%type.
@@ -300,3 +301,33 @@ Fixpoint all_ok_sk (st : sys) (evs : list event) : bool :=
 Definition w_sk : list event :=
   [EConnect 1; EConnect 2; EConnect 3; at0 1 [bs "BLPOP"; bs "q"; bs "0"] (Some 0);
    at0 2 [bs "BRPOP"; bs "q"; bs "0.3"] (Some 300); at0 3 [bs "RPUSH"; bs "q"; bs "a"; bs "b"; bs "c"] None].
+
+(** ---- FIFO as a property of the history: served in the order they blocked ---- *)
+(** every registration and every wake-up carries the stamp its blocking call got (blocked_at in
+    the code: Instant::now(); in the model a counter, so two calls never share a stamp) *)
+Definition stamp_in (b : blocking) (c t : Z) : Prop :=
+  (exists rk w, In w (reg_get (b_reg b) rk) /\ w_conn w = c /\ w_at w = t) \/
+  (exists u, In u (b_wake b) /\ u_conn u = c /\ u_at u = t).
+(** the event leaves its connection Blocked *)
+Definition blocks (st : sys) (e : event) : bool :=
+  match e with
+  | EFrame _ c _ _ => negb (is_blocked (snd st) c) && is_blocked (snd (step st e)) c
+  | _ => false
+  end.
+(** reachable states with the number of blocking calls that blocked so far *)
+Inductive reach_n (pw : option bytes) : nat -> sys -> Prop :=
+| rn_init : reach_n pw O (init_server pw, init_blocking)
+| rn_step : forall n st e, reach_n pw n st -> ok st e = true ->
+    reach_n pw (n + (if blocks st e then 1 else 0))%nat (step st e).
+(** a queue in the order its waiters blocked *)
+Definition stamp_le (a b : waiter) : Prop := w_at a <= w_at b.
+Definition in_blocking_order (q : list waiter) : Prop := StronglySorted stamp_le q.
+(** the FIFO history: a connection blocks, two more block behind it, its element is taken before
+    its wake-up runs (it keeps its place), then three pushes serve the three in the order they blocked *)
+Definition w_fifo : list event :=
+  [EConnect 1; EConnect 2; EConnect 3; EConnect 4;
+   at0 1 [bs "BLPOP"; bs "q"; bs "0"] (Some 0); at0 2 [bs "BLPOP"; bs "q"; bs "0"] (Some 0);
+   at0 3 [bs "BLPOP"; bs "q"; bs "0"] (Some 0);
+   at0 4 [bs "LPUSH"; bs "q"; bs "x"] None; at0 4 [bs "LPOP"; bs "q"] None; EWakeups 0;
+   at0 4 [bs "RPUSH"; bs "q"; bs "a"] None; EWakeups 0; at0 4 [bs "RPUSH"; bs "q"; bs "b"] None; EWakeups 0;
+   at0 4 [bs "RPUSH"; bs "q"; bs "c"] None; EWakeups 0].
